@@ -43,3 +43,6 @@ OBLIG = ["QuillModel.Obligations.BackendA"]
 # per property (a broken fact of C08 is not C03's broken tie)
 OBLIG_BY_PROP = {"C03": ["QuillModel.Obligations.BackendA_C03", "QuillModel.Obligations.BackendA_Common"], "C10": ["QuillModel.Obligations.BackendA_C10", "QuillModel.Obligations.BackendA_Common"],
                  "C08": ["QuillModel.Obligations.BackendA_C08", "QuillModel.Obligations.BackendA_Common"]}
+# w2_prog: exactly once as one statement over the whole trace (Props/C03Trace.lean)
+THEOREMS["C03"] += ["Backend.C03_exactly_once_trace", "Backend.C03_once_iff", "Backend.PA.PW.run"]
+MODULES["C03"] += ["QuillModel.Props.C03Trace"]
